@@ -12,6 +12,12 @@
      DhwDev(c, r, d)      RP 000C 000D / 000E / 010E: DHW sensor / hot-water valve / heating valve
      App(c, d)            RP 000C 000F: appliance control
      Eav(c, z, d)         (eavesdropping) thermostat d writes a setpoint for zone z to controller c
+     ZoneDevs / DhwDev / App with NO device (the reply's only element is 7FFFFFFF): "this role is empty".
+                          The code tells an existing zone / DHW zone (which returns at once), creates nothing,
+                          releases nothing and raises nothing: the graph stays as it is.
+     Fake(d)              not traffic - the application calls gwy.fake_device(d) (impersonation).  Faking is
+                          no part of the graph: whether it succeeds (thermostats, DHW sensors that exist) or
+                          raises to its caller (LookupError, TypeError), the graph stays as it is.
    A refused claim raises (SystemSchemaInconsistent, TypeError, ValueError, ...) out of the message
    handler: `rep` records that; effects made before the raise persist (zones created, devices added).
 
@@ -28,6 +34,7 @@ CONSTANTS
   TypeOf,     \* TypeOf[d] \in {"CTL","THM","TRV","BDR","DHW","OTB"}
   Classes,    \* zone class codes, e.g. {"08","11"}
   Eavesdrop,  \* BOOLEAN
+  FakeDevs,   \* subset of Devs the application may ask to fake
   MaxClaims   \* bound on the length of a history
 
 None == ""
@@ -169,6 +176,12 @@ Next ==
      \/ /\ Eavesdrop
         /\ \E c \in Ctls, z \in ZoneIds, d \in {x \in Devs : TypeOf[x] = "THM"} :
              Apply(EavResult(G, c, z, d), Claim("eav", c, z, "", <<d>>))
+     \* a role reported with no device: no effect (Zone._handle_msg / DhwZone._handle_msg return, nothing is created)
+     \/ \E c \in Ctls, z \in ZoneIds, r \in {"04", "00"} \cup Classes : Apply(G, Claim("devs", c, z, r, <<>>))
+     \/ \E c \in Ctls, r \in {"0D", "0E0", "0E1"} : Apply(G, Claim("dhw", c, "", r, <<>>))
+     \/ \E c \in Ctls : Apply(G, Claim("app", c, "", "0F", <<>>))
+     \* the application fakes a device: no effect on the graph
+     \/ \E d \in FakeDevs : Apply(G, Claim("fake", "", "", "", <<d>>))
 
 Spec == Init /\ [][Next]_vars
 
